@@ -32,8 +32,10 @@ def cases(tier, seed):
     out = []
     for kind, p in panels_for(tier, seed):
         if kind == 'FULL':
-            if p['G'] <= 2 or tier == 'thorough':
+            if p['G'] <= 1 or tier == 'thorough':
                 cfg = spaces.full_configs(p)
+            elif p['G'] == 2:
+                cfg = spaces.full_configs(p, ngm_values=(None,))
             else:
                 cfg = spaces.full_configs(p, subsets=spaces.QUICK_SUBSETS, ngm_values=(None,))
         elif kind == 'FULL3B':
